@@ -157,8 +157,8 @@ package simpledb
 
 //@ func saveCompactionMetadata
 //@   props C02 C11
-//@   exit [close-error-reported] called(Writer.Close, 0) && callres(Writer.Close, 0, 0) != nil ==> err != nil
-//@   exit [write-error-reported] called(Writer.Write, 0) && callres(Writer.Write, 0, 1) != nil ==> err != nil
+//@   exit [close-error-reported] called(WriterI.Close, 0) && callres(WriterI.Close, 0, 0) != nil ==> err != nil
+//@   exit [write-error-reported] called(WriterI.Write, 0) && callres(WriterI.Write, 0, 1) != nil ==> err != nil
 
 //@ func executeCompaction
 //@   props C06 C02 C11 C01
